@@ -11,4 +11,4 @@ def run(ctx):
     from props import netprop, scen
     t = ctx.tier == "thorough"
     netprop.run_property(ctx, "C04", ["refuse", "capacity", "merge"], 600 if t else 60, 24,
-                         scenarios=scen.refusals() + scen.forwarding() + scen.capacity(), own_props=["C04"], props_file=False)
+                         scenarios=scen.refusals() + scen.forwarding() + scen.capacity() + scen.register_limit() + scen.big_merge(), own_props=["C04"], props_file=False)
